@@ -98,6 +98,26 @@ fn first_member(data: &[u8]) -> Option<sfnt::Font> {
     }
 }
 
+/// cheap variant for Miri: probe a few hundred code points instead of enumerating the subtable
+fn cmap_probe(f: &sfnt::Font) -> Vec<char> {
+    let cmap = match f.gets("cmap") {
+        Some(c) => c,
+        None => return Vec::new(),
+    };
+    let recs = match sfnt::cmap::read_records(cmap) {
+        Some(r) => r,
+        None => return Vec::new(),
+    };
+    let (i, kind) = match sfnt::cmap::select(&recs) {
+        Some(x) => x,
+        None => return Vec::new(),
+    };
+    if kind != sfnt::cmap::EncKind::Unicode {
+        return Vec::new();
+    }
+    (0x20u32..0x100).filter(|c| sfnt::cmap::lookup(cmap, recs[i].offset as usize, *c).map_or(false, |g| g != 0)).filter_map(char::from_u32).collect()
+}
+
 fn cmap_sample(f: &sfnt::Font, max: usize) -> Vec<char> {
     let cmap = match f.gets("cmap") {
         Some(c) => c,
@@ -130,11 +150,25 @@ impl C02 {
             4_000_000
         };
         let mut seeds = Vec::new();
-        for f in load_seed_fonts(max, true) {
-            let aots = f.name.contains("aots");
-            if miri && !aots {
-                continue;
+        let all = if miri {
+            // a handful of tiny AOTS fonts covering the lookup types (read individually: reading the
+            // whole corpus is too slow under Miri)
+            let want = ["gsub1_1_simple_f1", "gsub2_1_simple_f1", "gsub3_1_simple_f1", "gsub4_1_simple_f1", "gsub_context1_simple_f1", "gsub_chaining3_simple_f1", "gpos1_1_simple_f1", "gpos2_1_simple_f1", "gpos3_font1", "gpos4_simple_1", "gpos5_font1", "gpos6_font1", "gpos_context1_simple_f1", "gpos_chaining1_simple_f1", "gsub_context2_expansion_f1", "gpos2_2_font1"];
+            let mut v = Vec::new();
+            for w in want {
+                let path = format!("/repo/tests/aots/{}.otf", w);
+                if let Ok(data) = std::fs::read(&path) {
+                    if data.len() <= max {
+                        v.push(SeedFont { name: format!("aots/{}.otf", w), data });
+                    }
+                }
             }
+            v
+        } else {
+            load_seed_fonts(max, true)
+        };
+        for f in all {
+            let aots = f.name.contains("aots");
             let tables = first_member(&f.data);
             let mut s = Seed {
                 name: f.name,
@@ -176,7 +210,7 @@ impl C02 {
                         }
                     }
                 }
-                s.chars = cmap_sample(&tb, 300);
+                s.chars = if miri { cmap_probe(&tb) } else { cmap_sample(&tb, 300) };
                 s.potential = tb.gets("GSUB").map_or(1.0, walk::growth_potential);
                 s.tables = Some(tb);
             }
@@ -192,8 +226,8 @@ impl C02 {
         let big: Vec<usize> = (0..seeds.len()).filter(|&i| !seeds[i].aots && (seeds[i].has_layout || seeds[i].tables.is_none())).collect();
         let aots: Vec<usize> = (0..seeds.len()).filter(|&i| seeds[i].aots && seeds[i].has_layout).collect();
         let variable: Vec<usize> = (0..seeds.len()).filter(|&i| seeds[i].axes > 0 && seeds[i].has_layout).collect();
-        let tg = TextGen::new(cx.quick() || miri);
-        if tg.words_loaded() == 0 {
+        let tg = TextGen::new(cx.quick() || miri, !miri);
+        if tg.words_loaded() == 0 && !miri {
             cx.inconclusive("no-word-lists");
         }
         C02 { seeds, big, aots, variable, tg, miri }
@@ -1114,7 +1148,7 @@ impl Prop for C02 {
             return;
         }
         let ncalls = if self.miri { 2 } else { 2 + rng.below(6) };
-        let which = if self.miri { rng.below(70) } else { rng.below(100) };
+        let which = rng.below(100);
         let fc = if which < 25 {
             // (i) real font, unfaulted
             let si = match self.pick_seed(rng, false) {
